@@ -1,11 +1,60 @@
 package main
 
+import (
+	"go/ast"
+	"go/constant"
+)
+
 // Regenerated constants for the mini-protocol properties C21..C25.
 func init() {
+	registerGen(genChainSyncLimits)
 	registerGen(func() {
 		emitConsts("TxSubLimits", [][3]string{
 			{"protocol/txsubmission", "MaxRequestCount", "maxRequestCount"},
 			{"protocol/txsubmission", "MaxAckCount", "maxAckCount"},
 		})
 	})
+}
+
+// genChainSyncLimits: the numbers the C21 theorems depend on, read from the source:
+//   - the capacity expression of `p.sendQueueChan = make(chan outboundMessage, X)` in
+//     protocol.Protocol.Start (a literal, or a package constant that is then evaluated),
+//   - chainsync.MaxPipelineLimit / DefaultPipelineLimit / DefaultPipelineDrainTimeout.
+func genChainSyncLimits() {
+	p := loadPkg("protocol")
+	fn := findFunc(p, "Protocol", "Start")
+	if fn == nil {
+		fatal("protocol.(*Protocol).Start not found")
+	}
+	capacity := ""
+	ast.Inspect(fn, func(n ast.Node) bool {
+		as, ok := n.(*ast.AssignStmt)
+		if !ok || len(as.Lhs) != 1 || len(as.Rhs) != 1 {
+			return true
+		}
+		sel, ok := as.Lhs[0].(*ast.SelectorExpr)
+		if !ok || sel.Sel.Name != "sendQueueChan" {
+			return true
+		}
+		call, ok := as.Rhs[0].(*ast.CallExpr)
+		if !ok || len(call.Args) != 2 {
+			fatal("sendQueueChan is not made with an explicit capacity")
+		}
+		if id, ok := call.Fun.(*ast.Ident); !ok || id.Name != "make" {
+			fatal("sendQueueChan is not created by make")
+		}
+		e := &constEnv{p: p, memo: map[string]constant.Value{}}
+		capacity = e.eval(call.Args[1], 0).ExactString()
+		return false
+	})
+	if capacity == "" {
+		fatal("assignment to sendQueueChan not found in Protocol.Start")
+	}
+	l := newLean("ChainSyncLimits")
+	l.pf("namespace GV.Gen.ChainSyncLimits\n")
+	l.pf("def sendQueueCap : Nat := %s -- capacity of p.sendQueueChan in protocol.(*Protocol).Start\n", capacity)
+	l.pf("def maxPipelineLimit : Nat := %s -- protocol/chainsync.MaxPipelineLimit\n", constOf("protocol/chainsync", "MaxPipelineLimit"))
+	l.pf("def defaultPipelineLimit : Nat := %s -- protocol/chainsync.DefaultPipelineLimit\n", constOf("protocol/chainsync", "DefaultPipelineLimit"))
+	l.pf("def defaultPipelineDrainTimeoutNs : Nat := %s -- protocol/chainsync.DefaultPipelineDrainTimeout\n", constOf("protocol/chainsync", "DefaultPipelineDrainTimeout"))
+	l.pf("end GV.Gen.ChainSyncLimits\n")
 }
